@@ -15,6 +15,7 @@ import convdecode
 EPOCH = datetime.datetime(1970, 1, 1)
 WIN = {"DT_DURS": 90000, "DT_DURM": 3000, "DT_DURH": 60}
 MULT = {"DT_DURS": 1, "DT_DURM": 60, "DT_DURH": 3600}
+FAR = {"DT_DURS": [604800, 31622400, 10 ** 9, 2147483647], "DT_DURM": [10 ** 5, 527040, 35791394], "DT_DURH": [1000, 8784, 596523]}
 _G = {}
 
 
@@ -74,6 +75,9 @@ def _worker(ys):
             for unit in ("DT_DURS", "DT_DURM", "DT_DURH"):
                 W = WIN[unit] if unit != "DT_DURS" or (every and (d.month, d.day, d.hour) in ((2, 28, 23), (12, 31, 23))) else 4000
                 work = [(-W, W)]
+                if (d.month, d.day, d.hour, d.second) in ((2, 28, 23, 59), (12, 31, 23, 59), (1, 1, 0, 0)):
+                    # far counts: weeks, years, decades (as many seconds as the 32-bit count holds)
+                    work += [(sg * c, sg * c) for c in FAR[unit] for sg in (1, -1)]
                 while work:
                     a, b = work.pop()
                     if a > b:
